@@ -76,9 +76,11 @@ func NewReaderFS(ctx context.Context, r io.Reader, options ReaderFSOptions) (_ *
 
 	ctx, cancel := context.WithCancel(ctx)
 	readerCtx, readerDone := context.WithCancel(context.Background())
+	// Waiting Opens are released per entry, or when reading has ended (readerCtx). Not when the caller cancels:
+	// the reader may still be writing entries, and UnarchiveErr is only set once it has noticed the cancellation.
 	fs := &ReaderFS{
 		unarchiveFS:  options.UnarchiveFS,
-		ps:           newPubsub(ctx),
+		ps:           newPubsub(readerCtx),
 		callerCtx:    ctx,
 		callerCancel: cancel,
 		readerCtx:    readerCtx,
